@@ -98,6 +98,8 @@ class Pages(Files):
     def ensure_absolute_path(self, path: str) -> Optional[str]:
         abspath = super().ensure_absolute_path(path)
         if abspath is not None:
+            if path.endswith("/") and not abspath.endswith("/"):
+                abspath += "/"
             if abspath.endswith("/"):
                 abspath += "index.html"
         return abspath
